@@ -133,6 +133,23 @@ func checkVectorisedEqualsSingle(c *core.Ctx, run *MRun, kindPrefix string) {
 				}
 			}
 		}
+		if run.States == nil {
+			// model-initialised states: the cell alone initialises its own (possibly narrower) state row
+			own := SingleCell(run, i, nil)
+			oo, err := Execute(own)
+			if err == nil {
+				if d, bad := diffBits3([][][]float64{out.Out[i]}, oo.Out); bad {
+					c.Violate(kindPrefix+"cell-output-differs-own-init", model, fmt.Sprintf("cell %d of the %d-cell run (states from InitialiseStates(%d)) differs from the same cell run alone with its own InitialiseStates(1) at %s", i, run.N, run.N, d))
+				}
+				for j := range oo.States[0] {
+					if j < len(out.States[i]) && !core.BitEq(oo.States[0][j], out.States[i][j]) && !(math.IsNaN(oo.States[0][j]) && math.IsNaN(out.States[i][j])) {
+						c.Violate(kindPrefix+"cell-state-differs-own-init", model, fmt.Sprintf("final state %d of cell %d: %v in the %d-cell run, %v when the cell runs alone with its own initial states", j, i, out.States[i][j], run.N, oo.States[0][j]))
+						break
+					}
+				}
+			}
+			c.Count("cells_compared_with_own_init", 1)
+		}
 		c.Count("cells_compared", 1)
 	}
 	if !nonzero && len(p.Desc.States) == 0 {
